@@ -35,6 +35,7 @@ def base_master(rng, n=None, kinds=("line", "curve"), anchors=True, classes=None
             g["anchors"] = [(nm, Fr(round(x)), Fr(round(y))) for nm, x, y in g["anchors"]]
     names = [g["name"] for g in desc["glyphs"]]
     desc["kerning"] = {(names[0], names[1]): Fr(-40), (names[1], names[0]): Fr(25)}
+    desc["glyphOrder"] = list(names)
     desc["info"] = {"familyName": "Fam", "styleName": "Master0", "unitsPerEm": 1000, "ascender": 800, "descender": -200,
                     "xHeight": 500, "capHeight": 700}
     return desc
